@@ -3,7 +3,6 @@ import MythVerif.Proofs.WsQueueTsoBnd
 namespace MythVerif.WsqTso
 open MythVerif.Wsq
 
-set_option maxHeartbeats 4000000 in
 theorem bT_vk5 (s s' : St) (p : Pid) (b) : Inv s → Inv s' → Bnd s → s.tpc p = .vk5 b → stepT s p = some s' → Bnd s' := by
   intro h h' hb hpc hs
   have hcfg := h.cfg
@@ -27,7 +26,6 @@ theorem bT_vk5 (s s' : St) (p : Pid) (b) : Inv s → Inv s' → Bnd s → s.tpc 
       (try simp only [upd_apply, applySto] at hold ⊢)
       first | assumption | (intros; contradiction) | (intro q; if hq : q = p then (subst hq; simp only [if_true]; intros; contradiction) else (simp only [if_neg hq]; exact hold q)) | grind [thiefLocked, mayBuf, notTrans, thiefFlight, popWin, rcOff_bnd, Rc1Shape, Rc2Shape, RcPre, RcShape, InsShape, Pu2Shape, CarryShape] | (intro q; by_cases hqp : q = p <;> simp [hqp] <;> grind [thiefLocked, mayBuf, notTrans, thiefFlight, popWin, rcOff_bnd, Rc1Shape, Rc2Shape, RcPre, RcShape, InsShape, Pu2Shape, CarryShape]) | skip)))
 
-set_option maxHeartbeats 4000000 in
 theorem bT_vu (s s' : St) (p : Pid) : Inv s → Inv s' → Bnd s → s.tpc p = .vu → stepT s p = some s' → Bnd s' := by
   intro h h' hb hpc hs
   have hcfg := h.cfg
@@ -51,7 +49,6 @@ theorem bT_vu (s s' : St) (p : Pid) : Inv s → Inv s' → Bnd s → s.tpc p = .
       (try simp only [upd_apply, applySto] at hold ⊢)
       first | assumption | (intros; contradiction) | (intro q; if hq : q = p then (subst hq; simp only [if_true]; intros; contradiction) else (simp only [if_neg hq]; exact hold q)) | grind [thiefLocked, mayBuf, notTrans, thiefFlight, popWin, rcOff_bnd, Rc1Shape, Rc2Shape, RcPre, RcShape, InsShape, Pu2Shape, CarryShape] | (intro q; by_cases hqp : q = p <;> simp [hqp] <;> grind [thiefLocked, mayBuf, notTrans, thiefFlight, popWin, rcOff_bnd, Rc1Shape, Rc2Shape, RcPre, RcShape, InsShape, Pu2Shape, CarryShape]) | skip)))
 
-set_option maxHeartbeats 4000000 in
 theorem bT_vr (s s' : St) (p : Pid) : Inv s → Inv s' → Bnd s → s.tpc p = .vr → stepT s p = some s' → Bnd s' := by
   intro h h' hb hpc hs
   have hcfg := h.cfg
